@@ -1089,3 +1089,42 @@ def r07j(ctx, rep, rule="R07j"):
                  "resumes it after the failing instruction", [fn.blocks[tgt]["term"].get("loc") or fn.span])
     else:
         rep.ok(rule, key, "every path from the error arm to the return moves %ip off the failed program", [fn.span])
+
+
+def r12s(ctx, rep, rule="R12s"):
+    """a root table that programs can add to must have a way to lose entries"""
+    from .. import shapes
+    facts, cg = ctx["facts"], ctx["cg"]
+    rep.rule(rule, "what only grows is not bounded by live data: every key of GlobalEnvironment.bindings is a root of run_gc "
+             "(iter_bindings) and owns a slot, and compiled code — including code compiled by eval at run time, for symbols made "
+             "by string->symbol — adds a key for every global name it mentions, bound or not. A table that programs can add to "
+             "without limit needs a removal path the collector reaches: some function removes entries from `bindings` "
+             "(remove / retain / clear) and is reachable from run_gc. Without one a loop that evals code over fresh names keeps "
+             "a symbol, a binding and a slot per name for the rest of the VM's life.")
+    GE = "marwood::vm::environment::GlobalEnvironment::"
+    adders, removers = [], []
+    for p, f in sorted(facts.fns.items()):
+        if not p.startswith(GE) or "{closure" in p:
+            continue
+        for bb, t in f.calls():
+            c = callee(t) or ""
+            if "HashMap::<K, V, S, A>::" not in c or not t["args"] or "bindings" not in shapes.shape(f, t["args"][0], 3):
+                continue
+            if c.endswith("::insert"):
+                adders.append(p)
+            elif c.endswith(("::remove", "::retain", "::clear", "::remove_entry", "::drain", "::extract_if")):
+                removers.append(p)
+    if not adders:
+        rep.anchor_lost(rule, "no function of GlobalEnvironment inserts into `bindings`")
+        return
+    gc_reach = cg.reachable_from(RUN_GC)
+    live = sorted(set(r for r in removers if r in gc_reach))
+    key = rule + "|GlobalEnvironment.bindings|removal-path"
+    if live:
+        rep.ok(rule, key, "bindings lose entries through %s, reachable from run_gc" % ", ".join(short_path(r) for r in live))
+    else:
+        f = facts.fns[sorted(set(adders))[0]]
+        rep.fail(rule, key, "GlobalEnvironment.bindings is added to by %s and nothing %s removes from it: every global name "
+                 "ever mentioned by compiled code stays a root, with its slot, for the rest of the VM's life" % (
+                     ", ".join(short_path(a) for a in sorted(set(adders))),
+                     "reachable from run_gc" if removers else "anywhere"), [f.span])
